@@ -75,6 +75,10 @@ def explore_all(rep, harness, scenarios, bound, budget_per_scenario=None, dpoint
     if budget_per_scenario:
         budget_per_scenario = max(1, budget_per_scenario * float(os.environ.get("VERIF_DEADLINE_SCALE", "1")))
     if por and dpoints == 1:
+        rep.assume("exploration order: every scenario first WITHOUT a preemption bound under partial-order reduction (DPOR backtrack sets + sleep sets; sleep sets "
+                   "only when the harness registers a step invariant); `scenarios_completed_all_interleavings` counts the scenarios whose reduced space was "
+                   "exhausted within the budget (all interleavings at the granularity of the scheduling points), `por_incomplete` those that fell back to the "
+                   "preemption-bounded search (`scenarios_completed_bound_k`); `por_sleep_set_blocked` = executions abandoned because every enabled thread was asleep")
         pb = por_budget or max(3, min(10, (budget_per_scenario or 30) / 3.0))
         rest = _explore_phase(rep, harness, exe, scenarios, bound, pb, dpoints, deadline, horizon, classify, jobs, chunk, extra_replay, por)
         if not rest:
